@@ -7,6 +7,8 @@ use serde_json::Value;
 use std::path::PathBuf;
 
 pub fn main() {
+    // debug-assertion builds default to printing every opcode
+    *crate::setting::ENABLE_PRINT_OPCODE.write().unwrap() = false;
     let args: Vec<String> = std::env::args().collect();
     let code = match args.get(1).map(|s| s.as_str()) {
         Some("check") => {
